@@ -34,6 +34,19 @@ func (mp *MemPool) VerifAcceptChainIDHash() []byte                { return mp.ac
 func (mp *MemPool) VerifEvict()                                   { mp.evictTransactions() }
 func VerifSetEvictPeriod(d time.Duration)                         { evictPeriod = d }
 
+// VerifAge makes the account's list look idle for longer than the eviction period (what the passing of wall-clock
+// time does in production), so that the next eviction run takes exactly the chosen accounts.
+func (mp *MemPool) VerifAge(acc []byte) bool {
+	mp.Lock()
+	defer mp.Unlock()
+	l, ok := mp.pool[types.ToAccountID(acc)]
+	if !ok {
+		return false
+	}
+	l.lastTime = time.Now().Add(-2*evictPeriod - time.Hour)
+	return true
+}
+
 // VerifAdmit is the full admission path of a transaction received from a client or peer:
 // signature / format verification, then validation and insertion.
 func (mp *MemPool) VerifAdmit(tx *types.Tx) error {
